@@ -158,6 +158,7 @@ func report(eng *Engine, root, prop, tier string, seed int, results []*FuncResul
 				"integer_model":            "math+wrap: SMT Int with exact wrap-around per Go type (no mathematical-integer assumption); int is 64 bit",
 				"samples":                  samples,
 				"engine_notes":             notes,
+				"deferred_to_thorough":     sortedKeys(eng.deferred),
 				"load_s":                   round3(loadS), "vcgen_s": round3(genS),
 			},
 			"assumptions": assumptions,
@@ -239,4 +240,13 @@ func replayReproduced(path string) bool {
 	}
 	b, _ := m["reproduced"].(bool)
 	return b
+}
+
+func sortedKeys(m map[string]bool) []string {
+	out := []string{}
+	for k := range m {
+		out = append(out, k)
+	}
+	sort.Strings(out)
+	return out
 }
